@@ -74,8 +74,19 @@ class MRun:
                 self.cross.append(s.to_smt2())
             return None
         if r == z3.unknown:
-            self.inconclusive.append(f'{kernel}: solver unknown on {describe}')
-            return None
+            # retry once in a fresh solver with a generous limit (the shared one has a short per-query time-out)
+            s2 = z3.Solver()
+            s2.set('timeout', 180000)
+            s2.add(*out.state.pc)
+            s2.add(neg)
+            r = s2.check()
+            if r == z3.unsat:
+                self.discharged += 1
+                return None
+            if r == z3.unknown:
+                self.inconclusive.append(f'{kernel}: solver unknown on {describe}')
+                return None
+            return s2.model()
         m = self.vm.solver.model()
         return m
 
